@@ -44,21 +44,24 @@ replace github.com/fatih/structtag => %s/structtag
     return mod
 
 
-def build():
+def build(race=False):
+    race = race and not vlib.COVER
     out_bin = os.path.join(vlib.HARNESS, "bin", "c20" + ("-" + hashlib.sha256(vlib.REPO.encode()).hexdigest()[:6]
                                                           if vlib.REPO != "/repo" else "")
-                           + ("-cover" if vlib.COVER else ""))
+                           + ("-cover" if vlib.COVER else "") + ("-race" if race else ""))
     os.makedirs(os.path.dirname(out_bin), exist_ok=True)
     cmd = ["go", "build", "-modfile", modfile(), "-o", out_bin]
     if vlib.COVER:
         # tools/anchorcov.py: instrument goctl's api packages (and main, or nothing is emitted);
         # vlib.go_run sets GOCOVERDIR=$VERIF_COVER/bin for the run
         cmd += ["-cover", "-coverpkg=" + COVERPKG + ",goctlh/..."]
+    if race:
+        cmd.append("-race")
     cmd.append("./cmd/c20")
-    rc, out = vlib.sh(cmd, cwd=GOCTLH, env=vlib.goenv(), timeout=900)
+    rc, out = vlib.sh(cmd, cwd=GOCTLH, env=vlib.goenv({"CGO_ENABLED": "1"} if race else None), timeout=900)
     return (rc == 0), (out_bin if rc == 0 else out)
 
 
 def run(binpath, cases, timeout=900):
     payload = [{"id": i, "src": c["src"], "muts": c.get("muts", [])} for i, c in enumerate(cases)]
-    return vlib.go_run(binpath, payload, tag="c20", timeout=timeout)
+    return vlib.go_run(binpath, payload, tag="c20", timeout=timeout, env={"GORACE": "halt_on_error=1"})
